@@ -100,6 +100,18 @@ CHECKS = {
     design_ref="DESIGN.md §5 C14",
     note="Trusted: TLC, renderer lib/absprog.py, harness projection. quick tier: 1500 renamings sampled by seed from the enumerated set; thorough: all.",
     technique="TLA+ relational trace specification (Trace_Rel: equivariance) + TLC-enumerated permutations/renamings replayed into the real pipeline"),
+ "C04": dict(
+    category="model_checking",
+    text="tlc -simulate over Gen_Conform, a TLA+ generator of programs that conform by construction: leaf templates (loop, if-else, stack local, print ecall, two arguments), non-leaf templates (wrapper with a saved register, recursion, two calls with two saved registers), five frame layouts, call sequences of main, optional third function, explicit .data/.text; each program in three spellings. A prefix of the programs is confirmed on the reference machine (every execution ends in the exit ecall without leaving the convention, and raises no C01/C02/C03 monitor). Every program is linted by the real pipeline and Trace_Diag requires the diagnostic list (parse errors, CFG errors, lints) to be empty.",
+    design_ref="DESIGN.md §5 C04",
+    note="Trusted: TLC, Gen_Conform templates (conformance by construction, spot-confirmed dynamically), Machine.tla, harness projection. Bounded: programs of three or four functions of these shapes.",
+    technique="TLA+ generator of conforming-by-construction programs (Gen_Conform) confirmed on the TLA+ reference machine + replay into the real pipeline + TLC trace validation (no diagnostics)"),
+ "C05": dict(
+    category="model_checking",
+    text="Gen_Conform with WithInject = TRUE: on top of a conforming base program one tagged line is deleted, replaced or inserted according to 17 injection kinds (saved register / sp / ra not restored, temporary read after a call, never-assigned register in a function / in main, unused assignment, arithmetic write to zero, stack access at / above the entry sp, instruction in .data, ecall with unknown number, unreachable code after ret / after a jump, jump into a function, fall-through into a function, function as first line); the generator states the expected diagnostic kinds, line and register operand by construction. The real pipeline lints each injected program and Trace_Diag requires a diagnostic of an expected kind on that line (and operand).",
+    design_ref="DESIGN.md §5 C05",
+    note="Trusted: TLC, the injectors' expectations (stated independently of the lints), harness projection. Additional diagnostics are allowed.",
+    technique="TLA+ violation injectors with by-construction expectations (Gen_Conform) + replay into the real pipeline + TLC trace validation of kind and location"),
 }
 PENDING = "check not built yet in this round (planned, see DESIGN.md §5); not claimed until its check is green on the unchanged tree"
 m = {
